@@ -60,6 +60,7 @@ DomOK_ == Directed => \A r \in V : \A v \in Reach(E, r) \ {r} :
             /\ Cardinality({d \in SDom(E, r, v) : SDom(E, r, v) = SDom(E, r, d) \cup {d}}) = 1   \* unique immediate dominator
             /\ r \in SDom(E, r, v)
             /\ IDom(E, r, v) \in Reach(E, r)
+            /\ IDomTree(E, r)[v] = IDom(E, r, v)
 
 (* ---- undirected ---- *)
 UCycles == {c \in ElemCycles(V, E) : Len(c) >= 3 /\ c[2] < c[Len(c)]}   \* one orientation each
